@@ -271,6 +271,22 @@ class ShadowListener(SimListener):
                     raise Violation("C19.shadow.data.mismatch", disc,
                                     "%s data differs at %s" % (name_of(o), keys[:3]))
 
+        # instances the mirror heard of that are not (or no longer) reachable from any root - e.g. the instance a
+        # refused create_child(reference=...) made and dropped: their reference, and the definition's set of
+        # referring instances, still follow the announcements
+        seen = set(id(o) for o in objs)
+        for iid, did in self.ref.items():
+            if iid in seen:
+                continue
+            o = self.keep[iid]
+            real = None if o.reference is None else id(o.reference)
+            if real != did:
+                raise Violation("C19.shadow.reference.mismatch", disc + "/unreachable",
+                                "an instance outside every netlist: real reference %s, mirror differs" % name_of(o.reference))
+            if did is not None and not any(i is o for i in self.keep[did].references):
+                raise Violation("C19.shadow.reference.mismatch", disc + "/unreachable",
+                                "%s.references lacks an instance the announcements say refers to it" % name_of(self.keep[did]))
+
     def learn_pristine_check(self, o, k, disc, name_of):
         # an object nobody ever announced or mentioned: it can only be a pin or wire without links
         if k in ("netlist", "library", "definition", "port", "cable", "instance"):
